@@ -110,6 +110,25 @@ pub fn generate(prop: &PropDef, tier: &str, seed: u64, index: u64) -> RunSpec {
     if prop.id == "C07" && index % 4 == 3 {
         return crate::conc::gen_conc(prop, seed, tier);
     }
+    // C02: a snapshot must stay stable while other threads write, flush, compact and ingest:
+    // every fourth run holds snapshots under the concurrent engine and re-reads them
+    if prop.id == "C02" && index % 4 == 3 {
+        return crate::conc::gen_conc(prop, seed, tier);
+    }
+    // ... and over failed operations that leave partial files: every fourth run injects one
+    // I/O error into a flush/compaction/drop_range/clear/ingest and reopens afterwards
+    if prop.id == "C20" && index % 4 == 2 {
+        let mut p = (prop.profile)();
+        p.min_ops = 4;
+        p.max_ops = 20;
+        p.blob_ingest = false;
+        let mut s = crate::gen::gen_run(prop.id, seed, &p);
+        s.ops.retain(|o| !matches!(o, Op::Scan { .. } | Op::Prefix { .. }));
+        let mut plan = crate::fault::default_plan("quick");
+        plan.samples = 6;
+        s.extra = serde_json::to_value(plan).unwrap();
+        return s;
+    }
     // C20 quantifies over crash points too: every fourth run is a journaled history whose crash
     // images are recovered and whose directory must then equal the recovered version
     if prop.id == "C20" && index % 4 == 3 {
@@ -219,6 +238,7 @@ pub fn run_spec(prop: &PropDef, spec: &RunSpec, workdir: &Path, index: u64) -> R
     match spec.extra.get("engine").and_then(|e| e.as_str()) {
         Some("conc") => return crate::conc::run_conc(prop, spec, workdir, index),
         Some("crash") => return crate::crash::run_crash(prop, spec, workdir, index),
+        Some("fault") => return crate::fault::run_fault(prop, spec, workdir, index),
         _ => {}
     }
     match prop.engine {
